@@ -26,6 +26,26 @@ fn proved_dead_arms(cx: &Cx) -> BTreeSet<String> {
     }
     out
 }
+/// `Ident::new` call sites which, on every analysed path of every role that reaches them, receive a constant string
+/// that is a valid identifier (so the call cannot panic).  Returns "file.rs:line".
+fn ident_new_proved(cx: &Cx) -> BTreeSet<String> {
+    let (mut constant, mut computed) = (BTreeSet::new(), BTreeSet::new());
+    for r in &cx.roles {
+        if r.variant == "_" { continue; }
+        for p in payloads(&cx.ix, r).into_iter().take(if r.variant == "CompareOp" { 5 } else { 1 }) {
+            let run = run_opt(&cx.ix, r, p.as_deref(), CollMode::Summary, &[], true);
+            for path in &run.paths {
+                for e in &path.events {
+                    if let Event::Note(n) = e {
+                        if let Some(rest) = n.strip_prefix("ident-new constant ") { constant.insert(rest.rsplit('/').next().unwrap_or(rest).to_string()); }
+                        if let Some(rest) = n.strip_prefix("ident-new computed ") { computed.insert(rest.rsplit('/').next().unwrap_or(rest).to_string()); }
+                    }
+                }
+            }
+        }
+    }
+    constant.difference(&computed).cloned().collect()
+}
 fn site_is(loc: &str, dead: &BTreeSet<String>) -> bool {
     // loc: derive-ex/src/item_type.rs:200:12: 200:26
     let mut it = loc.split(':');
@@ -43,7 +63,7 @@ const PANIC_CEILINGS: [(&str, usize, &str); 7] = [
     ("Ident::new", 3, "constant operator method / trait names and the placeholder constant"),
     ("parse_quote", 40, "parse_quote! templates; what they print is parsed by TP-parse (C20) on every instance"),
 ];
-const FINITE_ITERS: [&str; 14] = ["std::slice::Iter<", "std::slice::IterMut<", "std::vec::IntoIter<", "std::array::IntoIter<", "syn::punctuated::Iter<", "syn::punctuated::IterMut<", "syn::punctuated::IntoIter<", "proc_macro2::token_stream::IntoIter", "std::iter::Enumerate<", "std::iter::Rev<", "std::iter::Map<", "std::iter::Filter<", "std::iter::FilterMap<", "std::iter::Once<"];
+const FINITE_ITERS: [&str; 16] = ["std::ops::Range<", "std::iter::Zip<", "std::slice::Iter<", "std::slice::IterMut<", "std::vec::IntoIter<", "std::array::IntoIter<", "syn::punctuated::Iter<", "syn::punctuated::IterMut<", "syn::punctuated::IntoIter<", "proc_macro2::token_stream::IntoIter", "std::iter::Enumerate<", "std::iter::Rev<", "std::iter::Map<", "std::iter::Filter<", "std::iter::FilterMap<", "std::iter::Once<"];
 const HASH_OK: [&str; 8] = ["::new", "::insert", "::get", "::contains", "::contains_key", "::from_iter", "::with_capacity", "::default"];
 
 pub fn c16(cx: &Cx) -> i32 {
@@ -67,12 +87,15 @@ pub fn c16(cx: &Cx) -> i32 {
         // (a) panic inventory
         let mut by_class: BTreeMap<&str, Vec<String>> = BTreeMap::new();
         let dead = proved_dead_arms(cx);
+        let ident_ok = ident_new_proved(cx);
+        rep.analysed.insert("Ident::new sites proven to receive constant valid identifiers".into(), json!(ident_ok));
         rep.analysed.insert("dispatch arms proven unreachable by the interpreter".into(), json!(dead));
         for c in &f.calls {
             if !reach.contains(&c.caller) { continue; }
             if let Some(cl) = panic_class(c) {
                 if expn_fns.contains(&c.caller) { continue; } // derive-generated (structmeta / syn) code: trusted dependency output
                 if cl == "panic" && site_is(&c.loc, &dead) { continue; }
+                if cl == "Ident::new" && site_is(&c.loc, &ident_ok) { continue; }
                 by_class.entry(cl).or_default().push(format!("{} -> {} at {}", c.caller, c.generic, c.loc));
             }
         }
@@ -103,7 +126,7 @@ pub fn c16(cx: &Cx) -> i32 {
                 if c.generic.starts_with(bad) && !(bad.contains("RandomState")) { rep.fail("MR-determinism", &c.caller, &format!("ambient:{bad}"), &format!("expansion consults ambient state through `{}`", c.generic), &c.loc, json!({})); }
             }
         }
-        rep.floor("hash-container call sites seen", hash_calls, 4);
+        rep.floor("hash-container call sites seen", hash_calls, 2);
         for (name, kind) in &f.statics { rep.check(!kind.contains("Mut") || kind.contains("mutability: Not"), "MR-determinism", name, "static-mut", "a mutable static exists", "-", json!({})); }
         // (d) termination
         let mut nloops = 0;
